@@ -284,7 +284,7 @@ def validate(doc, embedded=False) -> list[tuple[str, str]]:
             except Inhabit as e:
                 err("V20", f"Const {i}: {e}")
             for sub in _function_values(nd["v"]):
-                if sub["nodes"][0]["op"] not in ("DFG", "FuncDefn"):
+                if sub["nodes"][0]["op"] not in ("DFG", "FuncDefn", "TailLoop", "Case", "DataflowBlock"):
                     err("V20", f"Const {i}: function value rooted at {sub['nodes'][0]['op']}")
                 for r, m in validate(sub, embedded=True):
                     err("V20", f"Const {i}: embedded function body invalid: {r} {m}")
